@@ -136,6 +136,9 @@ func startCases(w *world) []kase {
 	if w.sc.Proto == "cmp-refresh" {
 		variants = append(variants, "constant=1")
 	}
+	if w.sc.Proto == "cmp-keygen" {
+		variants = append(variants, "constant=0") // a contribution of zero, in the form a refresh polynomial has
+	}
 	for _, d := range devs {
 		for _, variant := range variants {
 			d, variant := d, variant
@@ -163,6 +166,11 @@ func startCases(w *world) []kase {
 						q = withDegree(p, 0)
 						one := g.NewScalar().SetNat(new(saferith.Nat).SetUint64(1))
 						var s curve.Scalar = one
+						coefficients(q).Index(0).Set(reflect.ValueOf(&s).Elem())
+					case "constant=0":
+						g := curve.Secp256k1{}
+						q = withDegree(p, 0)
+						var s curve.Scalar = g.NewScalar()
 						coefficients(q).Index(0).Set(reflect.ValueOf(&s).Elem())
 					}
 					if q != nil {
@@ -381,9 +389,112 @@ func equivocatedCommitmentCases(w *world) []kase {
 	return out
 }
 
+// rootAtVictimCases (FROST key generation): the dealer's polynomial is well formed, of the right degree
+// and properly proven, but has a ROOT at the victim's evaluation point - the public polynomial then
+// evaluates to the point at infinity there (through a cancelling addition) - and the share sent to the
+// victim is some other non-zero value.  Everything else is correct.  The share check is a single point
+// comparison with that identity on one side.
+func rootAtVictimCases(w *world) []kase {
+	if w.sc.Proto != "frost-keygen" && w.sc.Proto != "frost-keygen-taproot" {
+		return nil
+	}
+	var out []kase
+	g := curve.Secp256k1{}
+	d := w.spec.IDs[len(w.spec.IDs)-1]
+	for _, victim := range w.spec.IDs {
+		if victim == d {
+			continue
+		}
+		d, victim := d, victim
+		var phi []byte
+		var sigma interface{}
+		set := func(data []byte) []byte {
+			tree, err := faults.Decode(data)
+			if err != nil || phi == nil {
+				return data
+			}
+			nt, ok := faults.Set(tree, "/Phi_i", phi, false)
+			if ok {
+				nt, ok = faults.Set(nt, "/Sigma_i", sigma, false)
+			}
+			if !ok {
+				return data
+			}
+			return faults.Encode(nt)
+		}
+		slot := faults.Slot{From: d, Round: 2, Broadcast: true}
+		name := "dealer-polynomial-with-root-at-the-recipient+other-share"
+		f := faults.MessageFault(slot, name, "replace", func(m *protocol.Message) *protocol.Message {
+			m.Data = set(m.Data)
+			return m
+		})
+		f.Deviator = d
+		f.Also = func(dl drv.Delivery) *protocol.Message {
+			if phi == nil || dl.M.Broadcast || int(dl.M.RoundNumber) != 3 || dl.To != victim {
+				return nil
+			}
+			five, _ := g.NewScalar().SetNat(new(saferith.Nat).SetUint64(5)).MarshalBinary()
+			m := drv.CloneMsg(dl.M)
+			m.Data, _ = cbor.Marshal(map[string][]byte{"F_li": five})
+			return m
+		}
+		done := false
+		f.StateHook = func(h protocol.Handler) bool {
+			if done {
+				return true
+			}
+			pv, ok := dealerPolynomial(h)
+			if !ok {
+				return false
+			}
+			q := withDegree(pv.Interface().(*polynomial.Polynomial), 0)
+			cs := coefficients(q)
+			t := cs.Len() - 1
+			if t < 1 {
+				return false
+			}
+			// q(X) = (X - x_v) * (g_0 + g_1 X + ... + g_{t-1} X^{t-1}),  g_i = 3 + i
+			xv := victim.Scalar(g)
+			gi := func(i int) curve.Scalar {
+				if i < 0 || i > t-1 {
+					return g.NewScalar()
+				}
+				return g.NewScalar().SetNat(new(saferith.Nat).SetUint64(uint64(3 + i)))
+			}
+			for i := 0; i <= t; i++ {
+				var c curve.Scalar = gi(i - 1).Sub(g.NewScalar().Set(xv).Mul(gi(i)))
+				cs.Index(i).Set(reflect.ValueOf(&c).Elem())
+			}
+			pv.Set(reflect.ValueOf(q))
+			phi, _ = polynomial.NewPolynomialExponent(q).MarshalBinary()
+			cr, _ := faults.CurrentRound(h)
+			hh, ok := cr.Interface().(interface {
+				HashForID(party.ID) *hash.Hash
+			})
+			if !ok {
+				return false
+			}
+			c0 := q.Constant()
+			enc, err := cbor.Marshal(zksch.NewProof(hh.HashForID(d), c0.ActOnBase(), c0, nil))
+			if err != nil {
+				return false
+			}
+			if sigma, err = faults.Decode(enc); err != nil {
+				return false
+			}
+			faults.RewriteOwnBroadcast(h, 2, d, set)
+			done = true
+			return true
+		}
+		out = append(out, kase{Scenario: w.sc, Deviator: d, Slot: slot, Path: "/Phi_i", Op: name, Menu: "coordinated", fault: f})
+	}
+	return out
+}
+
 func specialCases(w *world, check string) []kase {
 	var out []kase
 	out = append(out, committedValueCases(w)...)
+	out = append(out, rootAtVictimCases(w)...)
 	if check != "C05" {
 		out = append(out, startCases(w)...) // deviations without a malformed message: nothing for C05 to judge
 	}
